@@ -100,6 +100,25 @@ fn one_liner(head: &str, directive: bool, ops: &[usize], joiner: u8, prelude: &s
     Case { kind: b'S', text: text.into_bytes(), construct, family: "one-line" }
 }
 
+/// the same dictionary line inside a construct that hands it to another code path: the body of a
+/// called macro (parsed again at expansion time, without a current file), a taken branch, a skipped
+/// branch (scanned by the skipper), an `.else` branch
+const CONTEXTS: [(&str, &str, &str); 5] = [
+    ("in-macro", ".macro mm\n", ".endm\nmm r16, 5\n"),
+    ("in-macro-noargs", ".macro mm\n", ".endm\nmm\n"),
+    ("in-if", ".if 1\n", ".endif\n"),
+    ("in-skipped", ".if 0\n", ".endif\nnop\n"),
+    ("in-else", ".ifdef nothing\nnop\n.else\n", ".endif\n"),
+];
+
+fn in_context(c: Case, ctxi: usize) -> Case {
+    let (name, pre, post) = CONTEXTS[ctxi];
+    let mut text = pre.as_bytes().to_vec();
+    text.extend_from_slice(&c.text);
+    text.extend_from_slice(post.as_bytes());
+    Case { kind: c.kind, text, construct: format!("{}/{}", name, c.construct), family: "one-line-in-context" }
+}
+
 fn dictionary_cases(ctx: &Ctx) -> Vec<Case> {
     let heads = heads();
     let n = OPERANDS.len();
@@ -125,6 +144,20 @@ fn dictionary_cases(ctx: &Ctx) -> Vec<Case> {
                 v.push(one_liner(h, true, &[a], 0, prelude));
                 for b in 0..n {
                     v.push(one_liner(h, true, &[a, b], 0, prelude));
+                }
+            }
+        }
+    }
+    // every line of length 0-1 (directives: also length 2; thorough: everything of length 2) inside each context
+    for ci in 0..CONTEXTS.len() {
+        for (h, dir) in &heads {
+            v.push(in_context(one_liner(h, *dir, &[], 0, ""), ci));
+            for a in 0..n {
+                v.push(in_context(one_liner(h, *dir, &[a], 0, ""), ci));
+                if *dir || ctx.tier == Tier::Thorough {
+                    for b in 0..n {
+                        v.push(in_context(one_liner(h, *dir, &[a, b], 0, ""), ci));
+                    }
                 }
             }
         }
@@ -162,6 +195,33 @@ fn structured_cases(ctx: &Ctx, scratch: &std::path::Path) -> Vec<Case> {
         t.truncate(65536);
         v.push(Case { kind: b'S', text: t.into_bytes(), construct: format!("struct/{}", name), family: "structured" });
     };
+    // character adjacency: a multi-byte, zero-width or control character directly behind (and in front of)
+    // every character that some scanner of the assembler treats specially, in every lexical position, at
+    // top level and inside the body of a called macro (where parameter substitution scans the text again)
+    {
+        let specials = ["@", "@1", "'", "\"", "\\", ";", "/", "//", "/*", ".", "#", "(", ")", ",", ":", "+", "-", "$", "0x", "0b", "=", "<<", ">", "!", "~", "*", "%", "&", "|", "^", "?", "r1", "pc", "low("];
+        let hostile = [("2byte", "\u{e9}"), ("3byte", "\u{20ac}"), ("4byte", "\u{1f600}"), ("nul", "\u{0}"), ("bom", "\u{feff}"), ("rtl", "\u{202e}"), ("del", "\u{7f}"), ("nbsp", "\u{a0}"), ("cr", "\r")];
+        for sp in specials {
+            for (hn, h) in hostile {
+                let lines = [
+                    ("operand", format!("ldi r16, {}{}", sp, h)),
+                    ("operand-before", format!("ldi r16, {}{}", h, sp)),
+                    ("comment", format!("nop ; {}{} {}{}", sp, h, h, sp)),
+                    ("string", format!(".db \"{}{}\", \"{}{}\"", sp.replace('"', ""), h, h, sp.replace('"', ""))),
+                    ("char", format!(".db '{}', {}'{}'", h, sp, h)),
+                    ("label", format!("{}{}: nop", h, sp)),
+                    ("head", format!("{}{} r16, 1", sp, h)),
+                ];
+                for (pos, line) in lines {
+                    let key = format!("{}/{}/{}", sp.replace('/', "slash").replace('*', "star"), hn, pos);
+                    add(&format!("adjacent/top/{}", key), format!("{}\n", line));
+                    add(&format!("adjacent/in-macro-with-args/{}", key), format!(".macro mm\n{}\n.endm\nmm r16, 5\n", line));
+                    add(&format!("adjacent/in-macro/{}", key), format!(".macro mm\n{}\n.endm\nmm\n", line));
+                    add(&format!("adjacent/as-macro-argument/{}", key), format!(".macro mm\n.db @0\n.endm\nmm {}\n", line));
+                }
+            }
+        }
+    }
     // unbalanced directives
     add("unbalanced/if-without-endif", ".if 1\nnop\n".into());
     add("unbalanced/if0-without-endif", ".if 0\nnop\n".into());
